@@ -3,7 +3,8 @@
 //! Nothing in here changes the behaviour of the library unless a monitor explicitly arms it:
 //! * re-exports of crate-private building blocks so that runtime monitors can drive them directly,
 //! * a thread-local logical step counter with an optional budget (bounded-progress checks),
-//! * a thread-local log / override of the random visiting order used by the SVC trainer.
+//! * a thread-local log / override of the random visiting order used by the SVC trainer,
+//! * thread-local high-water gauges of internal resources (explicit stacks) that guide stress searches.
 #![allow(missing_docs)]
 
 use std::cell::{Cell, RefCell};
@@ -43,6 +44,36 @@ thread_local! {
     static BUDGET: Cell<u64> = Cell::new(u64::MAX);
     static SVC_FORCED: RefCell<VecDeque<Vec<usize>>> = RefCell::new(VecDeque::new());
     static SVC_LOG: RefCell<Vec<Vec<usize>>> = RefCell::new(Vec::new());
+}
+
+thread_local! {
+    static GAUGES: RefCell<Vec<(&'static str, u64)>> = RefCell::new(Vec::new());
+}
+
+/// Records the high-water mark of an internal resource (explicit stack depth, work-list length, ...).
+#[inline]
+pub fn note_max(site: &'static str, value: u64) {
+    GAUGES.with(|g| {
+        let mut g = g.borrow_mut();
+        if let Some(e) = g.iter_mut().find(|e| e.0 == site) {
+            if value > e.1 {
+                e.1 = value;
+            }
+        } else {
+            g.push((site, value));
+        }
+    });
+}
+
+/// Returns and clears the high-water mark recorded for `site` (0 when the site was never reached).
+pub fn take_max(site: &'static str) -> u64 {
+    GAUGES.with(|g| {
+        let mut g = g.borrow_mut();
+        match g.iter().position(|e| e.0 == site) {
+            Some(i) => g.remove(i).1,
+            None => 0,
+        }
+    })
 }
 
 /// Payload prefix of the panic raised when the step budget is exhausted.
